@@ -82,6 +82,14 @@ func scnC14At(rc *RunCtx, level int) {
 			}
 			s.Events = append(s.Events, e)
 		}
+		switch t.Choose(6, "rare.event") {
+		case 4:
+			s.Events = append(s.Events, k.Connect(s.Ses, pid, s.UID))
+			rc.Sim.Count("c14.socket_syscall_with_sockaddr")
+		case 5:
+			s.Events = append(s.Events, k.OpenLongPath(s.Ses, pid, s.UID))
+			rc.Sim.Count("c14.record_longer_than_8k")
+		}
 		if t.Choose(2, "end") == 1 {
 			s.Events = append(s.Events, k.UserMsg("USER_END", s.Ses, pid, s.UID, t.Choose(3, "ok") != 0, t.Choose(2, "rf")))
 			s.Events = append(s.Events, k.UserMsg("CRED_DISP", s.Ses, pid, s.UID, true, t.Choose(2, "rf")))
@@ -498,7 +506,7 @@ func scnC15Faults(rc *RunCtx) {
 	case "malformed-line":
 		pos = t.Choose(len(lines)+1, "pos")
 		badLine = []string{"type=SYSCALL this is not an audit record", "garbage", "type=USER_START msg=audit(xx): broken", "audit(1.1:1): no type",
-			" ", "\t", "\r", "   \t ", "\x00", "type="}[t.Choose(10, "bad")]
+			" ", "\t", "\r", "   \t ", "\x00", "type=", "type=UNKNOWN[1420] msg=audit(16738860", "type=UNKNOWN[14xx] msg=audit(1673886030.123:77): x=1"}[t.Choose(12, "bad")]
 		wantEvents = 0
 		for i, end := range evEnd {
 			if end <= pos {
